@@ -42,3 +42,163 @@ func vApp(id string, q *Queue, rec *vRecorder) *Application {
 }
 
 var vAppStates = []string{"New", "Accepted", "Running", "Rejected", "Completing", "Completed", "Failing", "Failed", "Expired", "Resuming"}
+
+// ---- application with asks / allocations on a queue chain and one node ----
+
+type vAppW struct {
+	app   *Application
+	c     []*Queue
+	rec   *vRecorder
+	ask   [2]*Allocation
+	has   [2]bool
+	xPend [3]vVec // pending of other applications per level (>= 0)
+	xAll  [3]vVec // allocated of other applications per level (>= 0)
+	node  *vNodeWorld
+}
+
+var vAskKeys = []string{"ask-1", "ask-2"}
+
+// vAsk: an ask/allocation object of app-1; allocated flag symbolic when allowAllocated
+func vAsk(name, key string, allowAllocated bool) *Allocation {
+	a := &Allocation{
+		allocationKey:     key,
+		applicationID:     "app-1",
+		allocatedResource: vResQ(name + ".res"),
+		priority:          int32(vRange(name+".prio", -2, 2)),
+		allocLog:          map[string]*AllocationLogEntry{},
+	}
+	any := false
+	for i := 0; i < vNK(); i++ {
+		if rv(a.allocatedResource, i) > 0 {
+			any = true
+		}
+	}
+	vAssume(any) // asks are strictly positive (checked at the SI boundary)
+	if vBool(name + ".placeholder") {
+		a.placeholder = true
+		a.taskGroupName = "tg-1"
+	} else if vBool(name + ".hasTG") {
+		a.taskGroupName = "tg-1"
+	}
+	if allowAllocated && vBool(name+".allocated") {
+		a.allocated = true
+		a.nodeID = "node-1"
+	}
+	return a
+}
+
+// vAppWorld: app-1 in root.p.leaf with up to two asks; ledgers consistent (AppInv + chain sums)
+func vAppWorld(states ...string) *vAppW {
+	w := &vAppW{rec: &vRecorder{}}
+	w.c = vGateChain()
+	w.app = vApp("app-1", w.c[0], w.rec)
+	if len(states) > 0 {
+		w.app.stateMachine.SetState(vStr("state", states...))
+		vSplit("state")
+	}
+	pend, al, ph := resourcesNew(), resourcesNew(), resourcesNew()
+	maxPrio := int32(-2147483648)
+	for j := 0; j < 2; j++ {
+		w.ask[j] = vAsk("a"+vAskKeys[j], vAskKeys[j], true)
+		w.has[j] = vBool("has." + vAskKeys[j])
+		if !w.has[j] {
+			continue
+		}
+		a := w.ask[j]
+		w.app.requests[a.allocationKey] = a
+		w.app.sortedRequests.insert(a)
+		if a.placeholder {
+			w.app.addPlaceholderData(a)
+		}
+		if a.allocated {
+			w.app.allocations[a.allocationKey] = a
+			if a.placeholder {
+				ph.AddTo(a.allocatedResource)
+			} else {
+				al.AddTo(a.allocatedResource)
+			}
+		} else {
+			pend.AddTo(a.allocatedResource)
+			if a.priority > maxPrio {
+				maxPrio = a.priority
+			}
+		}
+	}
+	pend.Prune()
+	al.Prune()
+	ph.Prune()
+	w.app.pending, w.app.allocatedResource, w.app.allocatedPlaceholder = pend, al, ph
+	w.app.askMaxPriority = maxPrio
+	w.app.hasPlaceholderAlloc = !isZeroRes(ph)
+	// queue chain: every level holds the application's amounts plus those of others
+	for l := 0; l < 3; l++ {
+		q := w.c[l]
+		qp, qa := resourcesNew(), resourcesNew()
+		for i := 0; i < vNK(); i++ {
+			w.xPend[l][i] = vRange(q.QueuePath+".xpend."+vKeys[i], 0, vQMax)
+			w.xAll[l][i] = vRange(q.QueuePath+".xalloc."+vKeys[i], 0, vQMax)
+			if l > 0 { // a parent holds at least what its child holds
+				w.xPend[l][i] += w.xPend[l-1][i]
+				w.xAll[l][i] += w.xAll[l-1][i]
+			}
+			pv := rv(pend, i) + w.xPend[l][i]
+			av := rv(al, i) + rv(ph, i) + w.xAll[l][i]
+			if pv != 0 || vBool(q.QueuePath+".pend0."+vKeys[i]) {
+				qp.Resources[vKeys[i]] = resQ(pv)
+			}
+			if av != 0 || vBool(q.QueuePath+".alloc0."+vKeys[i]) {
+				qa.Resources[vKeys[i]] = resQ(av)
+			}
+		}
+		q.pending, q.allocatedResource = qp, qa
+	}
+	return w
+}
+
+// appInv: the application's books agree with its asks and allocations, and the queue chain with the application
+func appInv(w *vAppW) bool {
+	ok := true
+	app := w.app
+	if app.pending == nil || app.allocatedResource == nil || app.allocatedPlaceholder == nil {
+		return false
+	}
+	terminal := app.stateMachine.Is("Failed") || app.stateMachine.Is("Completed")
+	for i := 0; i < vNK(); i++ {
+		var p, a, h int64
+		for key, r := range app.requests {
+			if r == nil || r.allocationKey != key {
+				ok = false
+				continue
+			}
+			if !r.allocated {
+				p += rv(r.allocatedResource, i)
+			}
+		}
+		for key, r := range app.allocations {
+			if r == nil || r.allocationKey != key || !r.allocated {
+				ok = false
+				continue
+			}
+			if r.placeholder {
+				h += rv(r.allocatedResource, i)
+			} else {
+				a += rv(r.allocatedResource, i)
+			}
+		}
+		if terminal {
+			// a terminated application drops its asks at once (cleanupAsks); its pending total is returned to the
+			// queue when the application is removed from it, so here only the queue/application agreement is required
+			p = rv(app.pending, i)
+		}
+		if rv(app.pending, i) != p || rv(app.allocatedResource, i) != a || rv(app.allocatedPlaceholder, i) != h {
+			ok = false
+		}
+		for l := 0; l < 3; l++ {
+			q := w.c[l]
+			if rv(q.pending, i) != p+w.xPend[l][i] || rv(q.allocatedResource, i) != a+h+w.xAll[l][i] {
+				ok = false
+			}
+		}
+	}
+	return ok
+}
